@@ -769,18 +769,54 @@ int main(int argc, char **argv)
     vector<string> allKeys;
     for (auto &m : mgrDefs()) if (m.key != "blocking+sub") allKeys.push_back(m.key);
 
-    // corpus first: the cells reported as findings, on the smallest configuration that shows them
+    // corpus first: the 37 witness cells that violated the property before repo commits 28afc7a (vCard), 318b7cf
+    // (roster), 1833c1a (transfer), 29beb7d (archive), 88fc5c1 (bookmark), daa6e10 (MAM), 7916dee (upload request),
+    // e597fe7 (registration), af7bef7 (RPC); each on the smallest configuration that showed it, all sender classes.
+    // Their oracle keys are unchanged, so any recurrence is reported as a violation at once.
     {
-        Config c { "corpus", { "roster", "vcard", "version", "entityTime", "discovery" } };
-        // (covered by the default-set run below; kept as a separate, first sequence so that a regression is seen at once)
-        corr("reset roster,vcard,version,entityTime,discovery", "ok");
-        Built b = build(c.mgrs);
-        const Payload *vc = nullptr, *ro = nullptr;
-        for (auto &p : cat) { if (p.name == "vCard.min") vc = &p; if (p.name == "roster.min") ro = &p; }
-        for (auto t : { "get", "set" }) for (auto &f : FROMS) { wantSample = f == "other"; Cell cell { false, t, f, "fresh", vc }; runCell(b, cell, rng); }
-        wantSample = false;
-        for (auto &f : FROMS) { wantSample = f == "none" || f == "other"; Cell cell { false, "get", f, "fresh", ro }; runCell(b, cell, rng); }
-        wantSample = false;
+        auto pl = [&](const char *name) -> const Payload * {
+            for (auto &p : cat) if (p.name == name) return &p;
+            fprintf(stderr, "harness bug: corpus payload %s missing\n", name); exit(3);
+        };
+        struct W { vector<string> mgrs; vector<string> types; const char *payload; const char *id; bool connected; };
+        const vector<string> DEF = { "roster", "vcard", "version", "entityTime", "discovery" };
+        const vector<W> ws = {
+            { DEF, { "get", "set" }, "vCard.min", "fresh", false },
+            { DEF, { "get", "set" }, "roster.min", "fresh", false },
+            { { "roster" }, { "get", "set" }, "roster.full", "fresh", false },
+            { { "archive" }, { "get", "set" }, "archive-chat.full", "fresh", false },
+            { { "archive" }, { "get", "set" }, "archive-list.full", "fresh", false },
+            { { "archive" }, { "get", "set" }, "archive-pref.full", "fresh", false },
+            { { "bookmark" }, { "get", "set" }, "private-bookmarks.full", "fresh", false },
+            { { "bookmark", "vcard" }, { "get", "set" }, "unknown", "bm", true },
+            { { "mam" }, { "get", "set" }, "mam-fin.full", "fresh", false },
+            { { "registration" }, { "get", "set" }, "register.full", "fresh", false },
+            { { "registration" }, { "get", "set" }, "unknown", "reg", false },
+            { { "rpc" }, { "set" }, "rpc.min", "fresh", false },
+            { { "rpc" }, { "set" }, "rpc.nodot", "fresh", false },
+            { { "transfer" }, { "result", "error" }, "ibb-open.full", "fresh", false },
+            { { "transfer" }, { "result", "error" }, "ibb-data.full", "fresh", false },
+            { { "transfer" }, { "result", "error" }, "ibb-close.full", "fresh", false },
+            { { "transfer" }, { "get" }, "bytestreams.full", "fresh", false },
+            { { "transfer" }, { "get" }, "si.full", "fresh", false },
+            { { "uploadRequest" }, { "get", "set" }, "upload-request.full", "fresh", false },
+            { { "uploadRequest" }, { "get", "set" }, "upload-slot.full", "fresh", false },
+        };
+        for (auto &w : ws) {
+            if (w.connected && !build(w.mgrs, true).c) { stat("configs_skipped_no_loopback"); continue; }
+            string l;
+            for (auto &m : w.mgrs) l += (l.empty() ? "" : ",") + m;
+            corr("reset " + l, "ok");
+            const Payload *p = pl(w.payload);
+            for (auto &t : w.types) for (auto &f : FROMS) {
+                Built b = build(w.mgrs, w.connected);
+                wantSample = (f == "other" || f == "ownOther") && samplesLeft() > 1;
+                Cell cell { false, t, f, w.id, p };
+                runCell(b, cell, rng);
+                wantSample = false;
+                stat("corpus_cells");
+            }
+        }
     }
 
     int freshEvery = thorough ? 1 : 1;
